@@ -30,7 +30,7 @@ def conditions(tier, seed):
                                 case_split=['ai', 'fwd'], twin=False))
     for n in range(2, 5):
         out.append(Cond('chains_prehistory_n%d' % n, 'c16_sort.py', dict(n=n, mode='chains', prehistory=True, kind='C'), timeout=t,
-                        bound='all arrangements of %d instances, built after a relate/unrelate history (stale link bookkeeping), upper-case class name' % n,
+                        bound='all arrangements of %d instances, built after a history (a long chain related and unrelated again; members linked on both sides to an instance deleted since; the query set built with a foreign last member that is removed before the real one is added), upper-case class name' % n,
                         case_split=['ai', 'fwd'], twin=False))
     for n in range(1, (4 if tier == 'quick' else 5) + 1):
         shards = 1 if n < 4 else (8 if n == 4 else 64)
